@@ -219,10 +219,15 @@ impl<A> Future for Addr<A> {
     type Output = Result<()>;
     fn poll(self: Pin<&mut Self>, cx: &mut std::task::Context<'_>) -> Poll<Self::Output> {
         log::trace!("polling actor");
-        self.get_mut()
-            .running
-            .poll_unpin(cx)
-            .map(|p| p.map_err(Into::into))
+        let this = self.get_mut();
+        // a `Shared` that is polled to completion gives up its share of the future; keep one, so that
+        // this handle can still be cloned, awaited again and asked whether the actor has stopped
+        let share = this.running.clone();
+        let poll = this.running.poll_unpin(cx);
+        if poll.is_ready() {
+            this.running = share;
+        }
+        poll.map(|p| p.map_err(Into::into))
     }
 }
 
